@@ -302,7 +302,7 @@ def run_batch(prop: str, modname: str, fnname: str, *, tier: str, budget_s: floa
             pending[fut] = (idx, time.monotonic())
             return True
 
-        for _ in range(workers * 2):
+        for _ in range(workers + 2):
             if not submit():
                 break
         while pending:
@@ -349,7 +349,7 @@ def run_batch(prop: str, modname: str, fnname: str, *, tier: str, budget_s: floa
             over = (time.monotonic() - t0) > budget_s
             many = len(violations) >= stop_on_violation
             if not over and not many and len(harness_errors) < 20:
-                while len(pending) < workers * 2:
+                while len(pending) < workers + 2:
                     if not submit():
                         break
     except BrokenProcessPool:
